@@ -191,6 +191,28 @@ def run(prop, tier):
             traceback.print_exc()
             rep.finding('INTERNAL ' + type(e).__name__, 'analyser error on %s MIR: %r' % (fl, e))
     if tier == 'thorough':
+        # engine self-consistency: the hand-written callee models (Try::branch, FromResidual, Into, count_ones)
+        # must give the same verdicts as inlining the library's own monomorphised MIR
+        try:
+            from .mirtab import Engine
+            sub = Report(prop, 'thorough', 'other', 'models-only replay')
+            Engine.DEFAULT_USE_EXT = False
+            try:
+                fn(Ctx(extract('dev')), sub, 'quick')
+            except Undecided as e:
+                sub.undecided(str(e))
+            finally:
+                Engine.DEFAULT_USE_EXT = True
+            a = sorted(k for k, _ in sub.findings)
+            b = sorted(k for k, _ in rep.findings if not k.startswith('UNDECIDED') or '[rel MIR]' not in k)
+            b = sorted(set(k for k in b))
+            same = set(a) == set(k for k in b)
+            rep.ob('callee models agree with library MIR (verdict set)', 1, 1 if same else 0)
+            rep.extra['models_vs_library_mir'] = {'same_findings': same, 'obligations_models_only': sum(o[0] for o in sub.obligations.values())}
+            if not same:
+                rep.finding('ENGINE model-disagreement', 'verdicts differ between library-MIR inlining and callee models: %s vs %s' % (b[:3], a[:3]))
+        except Exception as e:
+            rep.note('models-only replay skipped: %r' % (e,))
         try:
             ma = mutation_adequacy(prop, fn)
             rep.extra['mutation_adequacy_non_gating'] = ma
